@@ -13,6 +13,8 @@ clauses file grammar (line oriented; a directive's text continues until the next
     start <stmts>                  at the start of the function body
     loop <N> invariant[ID : tags] <expr>
     loop <N> ensures[ID : tags] <expr>      (loops left through `break` / `while let`)
+    exit[ID : tags] <proof text>            (at EVERY exit: each `return E;` and each leaf of the tail expression; the
+                                             returned value is bound to the `result` name first, so the text may use it)
     loop <N> decreases <expr>
     loop <N> attr <text>
     loopstart <N>[ID : tags] <stmts>
@@ -37,7 +39,7 @@ class AnchorLost(Exception):
 
 
 DIRECTIVES = ("props", "attr", "result", "requires", "ensures", "decreases", "start", "loop", "loopstart",
-              "loopend", "before", "after", "closure", "noctl", "recommends", "tail", "summary")
+              "loopend", "before", "after", "closure", "noctl", "recommends", "tail", "summary", "exit")
 
 
 class Clause:
@@ -166,7 +168,7 @@ def _parse_directive(st, ln, auto):
         return tok, k, s
 
     kind = kw
-    if kw in ("requires", "ensures", "decreases", "start", "attr", "result", "props", "recommends", "tail", "noctl", "summary"):
+    if kw in ("requires", "ensures", "decreases", "start", "attr", "result", "props", "recommends", "tail", "noctl", "summary", "exit"):
         rest = take_id(rest)
     elif kw == "loop":
         n, rest = take_int(rest)
@@ -202,6 +204,143 @@ def _parse_directive(st, ln, auto):
         auto[0] += 1
         cid = "_%s%d" % (kind, auto[0])
     return Clause(kind, cid, tags, rest.strip(), args, ln)
+
+
+
+# ------------------------------------------------------------------------------------------ exits
+def _closure_ranges(sh):
+    return [(c["open"], c["body_e"]) for c in sh.closures]
+
+
+def _in_ranges(pos, ranges):
+    return any(a <= pos < b for a, b in ranges)
+
+
+def _block_tail(m, bo, bc):
+    """-> ('expr', start, end) of the tail expression of block (bo, bc), or ('unit', pos) when the block has none"""
+    j = skip_ws_back(m, bc)
+    if j <= bo or m[j] in ";{":
+        return ("unit", bc)
+    jj = j
+    if m[jj] == "}":
+        jj = match_open(m, jj)
+    p, _ = _stmt_start(m, jj, bo + 1)
+    # a block-like statement without value (`for`, `while`, `loop`, else-less `if`) is not a tail expression
+    if re.match(r"(?:'\w+\s*:\s*)?(for|while|loop)\b", m[p:]):
+        return ("unit", bc)
+    return ("expr", p, j + 1)
+
+
+def _leaves(m, a, b, out):
+    """leaf value expressions of the expression m[a:b] (through if/else chains, match arms and blocks)"""
+    a = skip_ws(m, a)
+    while b > a and m[b - 1].isspace():
+        b -= 1
+    km = re.match(r"(if|match|unsafe)\b", m[a:b])
+    if km and km.group(1) == "if":
+        k = a + 2
+        has_else = False
+        blocks = []
+        while True:
+            bo = _cond_end(m, k)
+            bc = match_close(m, bo)
+            blocks.append((bo, bc))
+            nx = skip_ws(m, bc + 1)
+            if nx < b and m.startswith("else", nx) and not (m[nx + 4].isalnum() or m[nx + 4] == "_"):
+                k2 = skip_ws(m, nx + 4)
+                if m.startswith("if", k2) and not (m[k2 + 2].isalnum() or m[k2 + 2] == "_"):
+                    k = k2 + 2
+                    continue
+                if m[k2] == "{":
+                    blocks.append((k2, match_close(m, k2)))
+                    has_else = True
+                break
+            break
+        if not has_else:
+            out.append(("expr", a, b))
+            return
+        for bo, bc in blocks:
+            t = _block_tail(m, bo, bc)
+            if t[0] == "expr":
+                _leaves(m, t[1], t[2], out)
+            else:
+                out.append(t)
+        return
+    if km and km.group(1) == "match":
+        bo = _cond_end(m, a + 5)
+        bc = match_close(m, bo)
+        if bc + 1 < b and m[skip_ws(m, bc + 1):b].strip():
+            out.append(("expr", a, b))          # `match .. { }.method()`: not a plain match
+            return
+        k = bo + 1
+        while True:
+            k = skip_ws(m, k)
+            if k >= bc:
+                break
+            # find `=>` at depth 0
+            q = k
+            while q < bc:
+                if m[q] in "([{":
+                    q = match_close(m, q) + 1
+                    continue
+                if m[q] == "=" and m[q + 1] == ">":
+                    break
+                q += 1
+            if q >= bc:
+                break
+            es = skip_ws(m, q + 2)
+            if m[es] == "{":
+                ec = match_close(m, es)
+                t = _block_tail(m, es, ec)
+                if t[0] == "expr":
+                    _leaves(m, t[1], t[2], out)
+                else:
+                    out.append(t)
+                k = ec + 1
+                if m[skip_ws(m, k)] == ",":
+                    k = skip_ws(m, k) + 1
+            else:
+                ee = _expr_end(m, es)
+                _leaves(m, es, ee, out)
+                k = ee
+                if k < bc and m[skip_ws(m, k)] == ",":
+                    k = skip_ws(m, k) + 1
+        return
+    if m[a] == "{":
+        bc = match_close(m, a)
+        if bc + 1 >= b:
+            t = _block_tail(m, a, bc)
+            if t[0] == "expr":
+                _leaves(m, t[1], t[2], out)
+            else:
+                out.append(t)
+            return
+    out.append(("expr", a, b))
+
+
+def exit_points(sh):
+    """every exit of the function body: ('expr', start, end) of a returned value, or ('unit', pos)"""
+    m = sh.m
+    cr = _closure_ranges(sh)
+    out = []
+    for mt in re.finditer(r"(?<![A-Za-z0-9_])return(?![A-Za-z0-9_])", m[sh.body_open:sh.body_close]):
+        s0 = sh.body_open + mt.start()
+        if _in_ranges(s0, cr):
+            continue
+        es = skip_ws(m, s0 + 6)
+        if m[es] == ";":
+            out.append(("unit", s0))
+            continue
+        ee = _expr_end(m, es)
+        out.append(("expr", es, ee))
+    t = _block_tail(m, sh.body_open, sh.body_close)
+    if t[0] == "expr":
+        # a tail that is itself `return ..` was already collected
+        if not re.match(r"return\b", m[skip_ws(m, t[1]):]):
+            _leaves(m, t[1], t[2], out)
+    else:
+        out.append(t)
+    return out
 
 
 # ------------------------------------------------------------------------------------------ fn shape
@@ -527,6 +666,32 @@ def splice_fn(text, fs: FnSpec):
         p, _ = _stmt_start(m, jj, sh.body_open + 1)
         ind = _indent_at(text, p)
         eds.append(Edit(p, p, "%s\n%s" % (c.text, ind), "S", c))
+
+    # at every exit (returns and leaves of the tail expression)
+    ex_clauses = by_kind.get("exit", [])
+    if ex_clauses:
+        res = None
+        for c0 in by_kind.get("result", []):
+            res = c0.text.strip()
+        try:
+            pts = exit_points(sh)
+        except (Unsupported, ScanError, IndexError) as e:
+            pts = None
+            for c in ex_clauses:
+                sh.lost.append((c, "exit points not found (%s)" % e))
+        for pt in (pts or []):
+            if pt[0] == "expr" and res:
+                a, b = pt[1], pt[2]
+                eds.append(Edit(a, a, "{ let %s = " % res, "S", None))
+                first = True
+                for c in ex_clauses:
+                    eds.append(Edit(b, b, ("; " if first else " ") + c.text, "S", c))
+                    first = False
+                eds.append(Edit(b, b, " %s }" % res, "S", None))
+            else:
+                pos = pt[1]
+                for c in ex_clauses:
+                    eds.append(Edit(pos, pos, c.text + " ", "S", c))
 
     # loops
     def loop_n(c):
